@@ -84,7 +84,9 @@ def gen_problem(rng, easy, chk):
     for _ in range(rng.randint(0, 3)):
         xy = (rng.randrange(w), rng.randrange(h))
         if xy not in dead:
-            exc[xy] = {r: rng.randint(0, 7) for r in resources}
+            keys = list(resources)
+            rng.shuffle(keys)                  # the order of a dictionary's keys means nothing
+            exc[xy] = {r: rng.randint(0, 7) for r in keys}
     m = Machine(w, h, chip_resources=dict(resources), chip_resource_exceptions=exc, dead_chips=dead)
     chips = list(m)
     cons = []
@@ -244,12 +246,12 @@ def run(chk):
             run_one(name, f, args, vidx, len(vr), evs)
             chk.evaluations += 1
         # annealing with effort: python kernel with snapshots at temperature changes, C kernel
-        heavy = (i % chk.pick(4, 2) == 0)
+        heavy = (i % 4 in (0, 1)) if chk.quick else True     # easy (even i) and general (odd i) problems alike
         if heavy:
             for kname, kern in (("python", PythonKernel), ("c", CKernel)):
                 if kern is None:
                     continue
-                for effort in ((0.1, 1.0) if i % 8 == 0 else (0.1,)):
+                for effort in ((0.1, 1.0) if i % 8 in (0, 1) else (0.1,)):
                     snaps = []
 
                     def cb(it, placements, cost, acc, temp, dist, snaps=snaps):
